@@ -92,6 +92,7 @@ type Gen struct {
 	// resolver urls used
 	urls         []string
 	pendingProbe bool
+	altR         *PRNG
 }
 
 func (g *Gen) next() int { g.uniq++; return g.uniq }
@@ -121,6 +122,26 @@ func (g *Gen) otherUser(a *Actor) *Actor {
 
 // emit records the step in the trace and executes it.
 func (g *Gen) emit(st *Step) bool {
+	if g.P.AltSched && g.altR != nil {
+		// replica Q's own crash/restart schedule, drawn from a forked stream
+		switch st.Kind {
+		case KTx:
+			if g.altR.Chance(0.06) {
+				st.Alt = &AltDirective{CrashAfter: true}
+			}
+		case KCommit:
+			a := &AltDirective{}
+			if g.altR.Chance(0.12) {
+				a.Torn = &TornSpec{Mask: g.altR.Uint64() & 0x1f, WriteErr: g.altR.Chance(0.25)}
+			}
+			if g.altR.Chance(0.12) {
+				a.RestartAfter = true
+			}
+			if a.Torn != nil || a.RestartAfter {
+				st.Alt = a
+			}
+		}
+	}
 	g.Trace.Steps = append(g.Trace.Steps, st)
 	return g.W.Exec(st)
 }
@@ -438,6 +459,10 @@ func NewGen(property string, tier string, vseed, runIdx uint64, ck Checker) (*Ge
 		return nil, err
 	}
 	g.W = w
+	w.Trace = g.Trace
+	if p.AltSched {
+		g.altR = r.Fork()
+	}
 	return g, nil
 }
 
